@@ -1,4 +1,4 @@
-import SignalGen.Generated
+import SignalGen.Gen.Scalar
 /-!
 # Regenerated tie, C01 / C04 / C20: `ChannelLength` (the float64 ceiling, with its zero-channel guard) and `min` as the Go source defines them now are the model's
 -/
